@@ -32,6 +32,13 @@ def main():
             res['status'] = 'inconclusive'; res['error'] = str(e)
         res['violations'] = E.violations
         if E.violations and res['status'] == 'pass': res['status'] = 'violation'
+        if E.track_log is not None:
+            tl = E.track_log
+            both = tl['unlocked_reads'] & tl['locked_writes']
+            res['extra'] = dict(locked_accesses=tl['locked_accesses'], unlocked_reads_of_metadata=sorted(map(str, tl['unlocked_reads']))[:20], locked_writes=len(tl['locked_writes']))
+            if both:
+                E.violations.append(dict(kind='race', msg='C17: pool metadata %s is read without the lock but written under it by another call' % sorted(both)[0:3], inputs={}, stack=[], notes=[], order=[]))
+                res['violations'] = E.violations; res['status'] = 'violation'
         res['stats'] = E.stats; res['funcs'] = sorted(E.funcs_seen); res['samples'] = samples
         if E.stats.get('paths', 0) == 0 and res['status'] == 'pass':
             res['status'] = 'inconclusive'; res['error'] = 'vacuous: no path reached the end of the harness'
